@@ -976,4 +976,137 @@ def r_c02_table(p):
     return {"violates": False, "what": "no score difference found in 300000 random vectors"}
 
 
-HANDLERS = {"c02_table": r_c02_table, "c14": r_c14, "c14_table": r_c14_table, "c19": r_c19, "c13": r_c13, "c13_text": r_c13_text, "c13_except": r_c13_except, "c17": r_c17, "c08": r_c08, "c10": r_c10, "c11": r_c11, "c15": r_c15, "c12": r_c12, "c12_raw": r_c12_raw, "c18": r_c18, "parse_step": r_parse_step, "parse_pre": r_parse_pre, "mandatory": r_mandatory, "parse_comm": r_parse_comm, "relational": r_relational, "c09": r_c09, "macrovector4": r_macrovector4, "c07_single": r_c07_single, "c07_pair": r_c07_pair, "c07_foreign": r_c07_foreign}
+def _interactive_run(version_key, all_metrics, no_colors, answers):
+    """run the real ask_interactively with the given answers; returns (outcome, value, consumed)"""
+    import contextlib
+    import io
+
+    import cvss.interactive as I
+
+    ver = {"2": 2, "3.0": 3.0, "3.1": 3.1, "4.0": 4.0}[str(version_key)]
+    left = list(answers)
+    used = [0]
+
+    def fake_input(*a):
+        if not left:
+            raise EOFError()
+        used[0] += 1
+        return left.pop(0)
+
+    old = I.string_input
+    I.string_input = fake_input
+    buf = io.StringIO()
+    try:
+        with contextlib.redirect_stdout(buf):
+            try:
+                got = ("vector", I.ask_interactively(ver, bool(all_metrics), bool(no_colors)))
+            except EOFError:
+                got = ("eof", None)
+            except Exception as e:  # noqa: BLE001
+                got = ("raise", "%s: %s" % (type(e).__name__, e))
+    finally:
+        I.string_input = old
+    return got[0], got[1], used[0]
+
+
+def _interactive_metrics(version_key, all_metrics):
+    """asking order (the library's own tables: the order is a convention, not the property) and
+    legal values (the grammar typed from the standards)"""
+    from spec import grammar
+
+    v = str(version_key)
+    version = {"2": 2, "3.0": 3, "3.1": 3, "4.0": 4}[v]
+    g = grammar.GRAMMARS[version]
+    if version == 2:
+        from cvss import constants2 as K
+    elif version == 3:
+        from cvss import constants3 as K
+    else:
+        from cvss import constants4 as K
+    order = list(K.METRICS_ABBREVIATIONS.keys()) if all_metrics else list(K.METRICS_MANDATORY)
+    prefix = {"2": "", "3.0": "CVSS:3.0/", "3.1": "CVSS:3.1/", "4.0": "CVSS:4.0/"}[v]
+    return version, g, order, prefix
+
+
+def r_c16(p):
+    from spec import grammar
+
+    version, g, order, prefix = _interactive_metrics(p["version"], p["all_metrics"])
+    nd = "ND" if version == 2 else "X"
+    answers = list(p["answers"])
+    if answers and isinstance(answers[0], (list, tuple)):
+        # [metric, retry index, answer] triples of the symbolic run: flatten them in asking order,
+        # per metric up to and including the first answer that is legal by the property's rule
+        per = {}
+        for met, r, a in answers:
+            per.setdefault(met, []).append((r, a))
+        flat = []
+        for met in order:
+            legal = grammar.legal(g, met) if met in dict(g["metrics"]) else []
+            for r, a in sorted(per.get(met, [])):
+                flat.append(a)
+                t = a.strip() or nd
+                if any(val.upper() == t.upper() for val in legal):
+                    break
+        answers = flat
+    # expected: per metric the first legal answer (case-insensitive; empty = Not Defined where legal)
+    left = list(answers)
+    fields = []
+    exp = None
+    for met in order:
+        legal = grammar.legal(g, met) if met in dict(g["metrics"]) else None
+        if legal is None:
+            return {"violates": True, "what": "the builder asks for %r, which is not a metric of the version" % met}
+        chosen = None
+        while chosen is None:
+            if not left:
+                exp = ("eof", None)
+                break
+            a = left.pop(0).strip()
+            if a == "":
+                a = nd
+            for val in legal:
+                if val.upper() == a.upper():
+                    chosen = val
+                    break
+        if exp is not None:
+            break
+        fields.append(met + ":" + chosen)
+    if exp is None:
+        exp = ("vector", prefix + "/".join(fields))
+    kind, val, used = _interactive_run(p["version"], p["all_metrics"], p.get("no_colors", True), answers)
+    probs = []
+    if (kind, val) != exp:
+        probs.append("builder: %s %r; first legal answers give: %s %r" % (kind, val, exp[0], exp[1]))
+    elif kind == "vector":
+        if used != len(answers) - len(left):
+            probs.append("builder consumed %d answers, %d expected" % (used, len(answers) - len(left)))
+        try:
+            _cls(version)(val)
+        except Exception as e:  # noqa: BLE001
+            probs.append("the class rejects the built vector %r: %s" % (val, type(e).__name__))
+    return {"violates": bool(probs), "answers": answers, "problems": probs}
+
+
+def r_c16_select(p):
+    from spec import grammar
+
+    version, g, order, prefix = _interactive_metrics(p["version"], p["all_metrics"])
+    met, want = p["metric"], p["value"]
+    answers = []
+    for m_ in order:
+        answers.append(want if m_ == met else grammar.legal(g, m_)[0])
+    tried = []
+    for variant in (want, want.upper(), want.lower()):
+        a = [variant if m_ == met else x for m_, x in zip(order, answers)]
+        kind, val, used = _interactive_run(p["version"], p["all_metrics"], True, a)
+        tried.append((variant, kind, val))
+        if kind == "vector" and (met + ":" + want) in val.split("/"):
+            return {"violates": False, "selected_by": variant, "vector": val}
+    res = {"violates": True, "what": "no spelling of %s selects %s:%s" % (want, met, want), "tried": tried}
+    if p.get("finding_key"):
+        res["finding_key"] = p["finding_key"]
+    return res
+
+
+HANDLERS = {"c16": r_c16, "c16_select": r_c16_select, "c02_table": r_c02_table, "c14": r_c14, "c14_table": r_c14_table, "c19": r_c19, "c13": r_c13, "c13_text": r_c13_text, "c13_except": r_c13_except, "c17": r_c17, "c08": r_c08, "c10": r_c10, "c11": r_c11, "c15": r_c15, "c12": r_c12, "c12_raw": r_c12_raw, "c18": r_c18, "parse_step": r_parse_step, "parse_pre": r_parse_pre, "mandatory": r_mandatory, "parse_comm": r_parse_comm, "relational": r_relational, "c09": r_c09, "macrovector4": r_macrovector4, "c07_single": r_c07_single, "c07_pair": r_c07_pair, "c07_foreign": r_c07_foreign}
